@@ -12,7 +12,7 @@ Definition show_fres (r : fres) : string :=
   end.
 Definition check (rs : list rune) : string := digest (show_fres (format_res rs)).
 Definition full (rs : list rune) : string := show_fres (format_res rs).
-Eval vm_compute in ("<<<M1537>>>" ++ check (runes_of_ascii "packet metadata {
+Eval vm_compute in ("<<<M1677>>>" ++ check (runes_of_ascii "packet metadata {
     repeat f64 Foo,
     repeat Logon f32a `
     `,
@@ -27,7 +27,7 @@ Eval vm_compute in ("<<<M1537>>>" ++ check (runes_of_ascii "packet metadata {
     @tag(10)
     u8x @calculatedFrom(""CRC32""),
     match metadata as msg_type {
-        [0123456789, ""\n""] : options1,
+        [""\n"", 0123456789] : options1,
         ""\n"" : float,
     },
 }
@@ -74,7 +74,7 @@ root packet body {
         match Z9_ as A {
             [42] : Logon,
             [
-                1, 4294967296, 0, ""CRC32"", ""a\""b"",
+                ""CRC32"", 1, ""a\""b"", 4294967296, 0,
                 ""\" ++ [233]%N ++ runes_of_ascii """
             ] : roots,
             ""a\""b"" : MetaDataX,
@@ -90,451 +90,553 @@ root packet body {
     },
     repeat options1 int `{ , }`,
 }")).
-Eval vm_compute in ("<<<M1939>>>" ++ check (runes_of_ascii "
-packet 	 // " ++ [128512]%N ++ runes_of_ascii " emoji
-
-x{
-	    //x
-lengthOf
-@calculatedFrom( ""abc""	) `u8 x,`
-,@rightPad( )
-	//x
-
-// @lengthOf(
-float32
-
-Packet  @lengthOf(falsey
-
-) ,  char[ 
-10 ]  falsey ,
-
-@tag( 3
-    )
-
-repeat
-zchar[
-    4294967296 ] repeatCount 
-, repeatCount
-	`say ""hi""`	, int16
-    u128 	 // `tick` ""quote"" 'q'
-	,	char[
-
-    3	]
-
-crc @calculatedFrom( ""x y""
-	),// trailing space 
-@leftPad(
-// " ++ [27880; 37322]%N ++ runes_of_ascii "
-	'\x00'
-) match	chars
-
-    as	i8i8 {
-
-42	: charz 	 // trailing space 
-,
-	}
-,
-
-    } options 
-{
-
-}
-MetaData	metadata
-	{ char[  4294967296 
-]
-    i8i8  ,
-
-    float rootA ,	i64
-packetx	// " ++ [27880; 37322]%N ++ runes_of_ascii "
-	,  i8 	 // " ++ [27880; 37322]%N ++ runes_of_ascii "
-  	roots
-`crlf
-line` ,
-
-tag i64_
-	,
-uint8 Pad
-
-    `" ++ [233]%N ++ runes_of_ascii "`
-    ,
-}root	packet 
-Header
-
-{ u64
-options1
-
-`two words`  ,@calculatedFrom(
-""a\\""// trailing space 
-    ) 	 // " ++ [128512]%N ++ runes_of_ascii " emoji
-  i32 	 //	t
-  x_y_z
-
-@calculatedFrom( 
-""a\""b""
-	)
-`tab	here`	,
-
-    match A as  len
-
-    {
-[""CRC32""  // " ++ [128512]%N ++ runes_of_ascii " emoji
-  ,
-	""it's""
-] 	 //	t
-	: Z9_
-	""a	b"" 
-: o
-
-,},
-match 
-asx
-	as
-	pack 
-{ 0
-    :
-	x_y_z
-
-,} ,
-
-    char[] 
-i64_ `{ , }`
-
-, }	MetaData 
-stringy
-	{  // trailing space 
-lengthOf
-    // `tick` ""quote"" 'q'
-  //	t
-	o,
-
-string 	 //
-
-u8x
-    , f32
-    string_`doc`, }
-
-")).
-Eval vm_compute in ("<<<M1324>>>" ++ check (runes_of_ascii "// top
-options
-    // c0
-{ LittleEndian
-    // c2
-= false
-    // c4
-;
-    // c5
-StringPrefixLenType
-    // c6
-=
-    // c7
-u8
-    // c8
-; // c9
-ArrayPrefixLenType // c10
-= // c11a
-  // c11b
-u64
-    // c12
-; // c13a
-  // c13b
-FixedStringPadFromLeft
-    // c14
-= false ;
-    // c17
-FixedStringPadChar // c18a
-  // c18b
-=
-    // c19
-' ' // c20a
-  // c20b
-; }
-    // c22
-packet
-    // c23
-Reject // c24a
-  // c24b
-{ // c25a
-  // c25b
-repeat char[ 4 ] // c29a
-  // c29b
-seqNo // c30
-, // c31
-string // c32
-Px
-    // c33
-,
-    // c34
-} root packet Trade // c38a
-  // c38b
-{ // c39a
-  // c39b
-@rightPad ( // c41
-'0' // c42
-)
-    // c43
-char[
-    // c44
-2 // c45
-] msgKind // c47
-, // c48
-repeat
-    // c49
-f64
-    // c50
-price // c51a
-  // c51b
-, InAcct79
-    // c53
-{
-    // c54
-repeat // c55a
-  // c55b
-Reject
-    // c56
-,
-    // c57
-zchar[ // c58a
-  // c58b
-7 // c59
-] // c60a
-  // c60b
-OrderId
-    // c61
-,
-    // c62
-} // c63
-, // c64
-Reject // c65a
-  // c65b
-, // c66
-} ")).
-Eval vm_compute in ("<<<M107>>>" ++ check (runes_of_ascii "packet falsey { i64_ ,	charz  {
-match Packet  as Pad { ""\n"" :Packet
-    , ""// no comment"" // " ++ [128512]%N ++ runes_of_ascii " emoji
-:
-f32a// `tick` ""quote"" 'q'
-, [
-    /// triple
-    3  ,4294967296,
-    10 ,//
-7 , 10	]
-: u
-, // trailing space 
-""`tick`"": u8x
-,
-[ 7 , ""it's"" ]:Packet, 0 : len
-    //
-    , }
-    , }, /// triple
-@lengthOf(	f32a) char[ 3 ]options1
-    @lengthOf(
-Pad)
-, zchar[ 0123456789 ]// trailing space 
-T ``
-,
-} packet
-Pad
-{
-    // c
-    o roots `{ , }` // " ++ [128512]%N ++ runes_of_ascii " emoji
-, }packet f32a {
-_x//
-@calculatedFrom(	""x y"") //x
-,@tag( 65535
-) //	t
-char pack @lengthOf( zchar  ) ,repeat //
-int64 falsey  ,repeat len {match A
-    as rootA {[ 42,  ""\n"" ]:
-Z9_ , }
-,repeat i16
-A , repeat zchar[ 65535 ] tag `
-` ,
-f64 float
-    @lengthOf( f32a ) ``  ,
-// `tick` ""quote"" 'q'
-// packet A { u8 x, }
-} , x
-    u8x
-, @tag(  42	) repeat As Packet	, @lengthOf( Pad
-    )repeat
-    f64 rootA ,// @lengthOf(
-}")).
-Eval vm_compute in ("<<<M322>>>" ++ check (runes_of_ascii "packet leftPad { //
-i8 stringy @calculatedFrom( """ ++ [128512]%N ++ runes_of_ascii """	) , int@calculatedFrom(
-// c
-// " ++ [128512]%N ++ runes_of_ascii " emoji
-""a	b"" )
-`it's` ,
-    @leftPad () @tag( 0123456789
-    )int32 u8x , @lengthOf(A )float64	u128	@calculatedFrom(
-    ""a\\"" ), //x
-} options { //x
-Pad = 0 u =
-    ' ' }MetaData
-    a1 { char[]
-metadata	`// not a comment`
-    // @lengthOf(
-    ,
-}	packet
-Foo { @tag(
-42 )	repeat BodyLength ,
-    int8 metadata`{ , }` ,@leftPad ( // c
-)// " ++ [27880; 37322]%N ++ runes_of_ascii "
-@calculatedFrom(//
-""`tick`""
-    ) @calculatedFrom(	""a	b""	) u32 stringy , @lengthOf( roots ) zchar[ 0 ] msg_type @lengthOf( i64_
-)`tab	here`	,i8 Header	`{ , }`
-, char[ 7
-] trueish @lengthOf(	packetx
-    )
-, u64	charz `
-`
-    ,
-    zchar[
-//	t
-// c
-65535]
-repeatCount
-`it's`
-    ,match // @lengthOf(
-calculatedFrom as calculatedFrom  {""a	b""
-: roots 42	: MetaDataX	,
-},
-}")).
-Eval vm_compute in ("<<<M1550>>>" ++ check (runes_of_ascii "// trailing space 
+Eval vm_compute in ("<<<M1418>>>" ++ check (runes_of_ascii "// top
 options {
-    f32a = false;
-    stringy = true;
-    u = ""\" ++ [233]%N ++ runes_of_ascii """;
-    stringy = false;
+    // c1
+    StringPrefixLenType = u16;// c5
+    ArrayPrefixLenType = u32;
+    // c9
+    FixedStringPadFromLeft = true;
+    FixedStringPadChar = '0';
+    // c17
 }
 
-packet options1 {
+packet Cancel {
+    // c21a
+    // c21b
+}// c22a
+
+// c22b
+packet Party {
 }
 
-MetaData packetx {
-    f32 uint8x,
+// c26
+packet Logon {
 }
 
-root packet zchar {
-    @tag(4294967296)
-    @lengthOf(a1)
-    i8 _x `it's`,//x
-    char[] o,
-    body,
-    zchar[65535] msg_type `crlf
-        line`,
-    repeat BodyLength {
-        repeat char[65535] stringy,
+packet Ack {
+    // c33a
+    // c33b
+}// c34
+
+packet Logout {
+    // c37a
+    // c37b
+    repeat InSym87 {
+        // c40a
+        // c40b
+        InClordid94 {
+            // c42
+            string clOrdID,
+            // c45
+        },
+        // c47
+        string Px,
+        i16 Qty,// c53
+        repeat InCount71 {
+            repeat Cancel,
+            // c59
+            uint16 Tail,
+            // c62
+            char[2] x,// c67a
+            // c67b
+            repeat string Ref,// c71
+        },
+        Cancel,// c75a
+        // c75b
     },
-    @calculatedFrom(""" ++ [128512]%N ++ runes_of_ascii """)
-    @tag(10)
-    repeat f32 lengthOf `line1
-        line2`,
-    repeat u {
-        uint32 Z9_,//
-        repeat body `
-                `,
-    },
-    @tag(4294967296)
-    i64_ @lengthOf(tag),
-    @lengthOf(float)
-    @lengthOf(packetx)
-    @calculatedFrom(""" ++ [128512]%N ++ runes_of_ascii """)
-    repeat x_y_z u,
-    @tag(65535)
-    u8 A,
-}//")).
-Eval vm_compute in ("<<<M1424>>>" ++ check (runes_of_ascii "options {
 }
 
-packet u8x {
-    string uint8x @calculatedFrom(""{,}"") `crlf
-        line`,
-}
-
-MetaData falsey {
-    Logon packetx `tab	here`,
-}
-
-root packet o {
-    falsey @calculatedFrom(""" ++ [28040; 24687]%N ++ runes_of_ascii """),
-    @tag(0123456789)
-    // `tick` ""quote"" 'q'
-    char[0123456789] u128 @calculatedFrom(""{,}""),
-    @tag(00)
-    @lengthOf(stringy)
-    @tag(4294967296)
-    rootA Header,
-    @lengthOf(As)
-    repeat leftPad `// not a comment`,
-    i8 leftPad @calculatedFrom(""""),
-    @tag(10)
-    zchar[007] packetx @lengthOf(u8x) `" ++ [28040; 24687; 31867; 22411]%N ++ runes_of_ascii "`,
-}
-
-packet options1 {
-    //	t
-    // trailing space 
-    falsey {
-        //	t
-        zchar[3] roots,
-        u32 Header,
-    },// a // b
+// c78
+root packet Order {
+    // c82
+    repeat string tag7,
+    @leftPad(' ')
+    // c90
+    char[3] Px,// c95a
+    // c95b
+    u8 Qty,
+    // c98
+    match Qty as Body {
+        [28, 62] : Logon,
+        // c111a
+        // c111b
+        148 : Ack,
+        // c115a
+        // c115b
+        88 : Party,
+        // c119
+        184 : Cancel,
+        // c123
+    },// c125a
+    // c125b
+    u16 Note @calculatedFrom(""CRC32""),// c131
 }")).
-Eval vm_compute in ("<<<M305>>>" ++ check (runes_of_ascii "packet
-pack{ u8 x ,
-char[
-    255 ]trueish
-@calculatedFrom(
-""// no comment"" ) `tab	here`,	@lengthOf( asx) repeat //
-zchar[
-0
-] stringy `
-`, @leftPad( '0' ) @calculatedFrom( // trailing space 
-""abc"" )
-    @calculatedFrom( ""it's""
-) char[] packetx@calculatedFrom( ""a	b"" ) `doc` , repeat string len
-    `two words`
-, uint16 matchKey
-    @lengthOf(
-    asx ) ,zchar[ 0 ]
-x `it's` // trailing space 
-, }
-    packet packetx {body  , string trueish `" ++ [233]%N ++ runes_of_ascii "` , @tag(255 )
-@tag(
+Eval vm_compute in ("<<<M1823>>>" ++ check (runes_of_ascii "
+
+  // top
+    options  // c0a
+	// c0b
+{
+LittleEndian  // c2
+	  =
+
+true
+    ; 	 // c5
+
+}// c6a
+		// c6b
+  packet 
+  // c7
+
+  Logon // c8a
+// c8b
+  	{
+
+u8 
+x	// c11
+  , } 	 // c13
+	packet 	 // c14
+
+	Logout {
+u16 // c17a
+    // c17b
+reason
+	// c18
+    ,	// c19a
+
+  // c19b
+		}// c20
+root 
+
+    // c21
+	packet  // c22a
+  // c22b
+  Frame 	 // c23a
+	// c23b
+  { 	 // c24a
+      // c24b
+u8
+
+// c25
+	Kind	// c26a
+      // c26b
+,	// c27
+  u8 	 // c28
+
+Kind2
+
+,  
+      // c30
+
+	match
+Kind
+
+    as  // c33
+  Body 
+      // c34
+	{  // c35a
+	  // c35b
+  1	// c36
+
+: 
+      // c37
+  Logon// c38
+, // c39a
+    // c39b
+	[ // c40a
+// c40b
+
+2 	 // c41
+, 
+
+    // c42
+
+3// c43
+  	,
+
+    4 ]
+// c46
+:	// c47
+	Logout 
+    // c48
+	  , // c49a
+  // c49b
+
+  100 // c50
+
+: 
+
+// c51
+  Logon	// c52a
+	// c52b
+
+,  
+  // c53
+  }
+    ,// c55
+    match // c56a
+  // c56b
+    	Kind2 as 
+// c58
+Trailer	// c59a
+    	// c59b
+    	{	// c60
+    0 	 // c61
+    :
+    // c62
+  Logout // c63a
+  	// c63b
+, 
+}  , 	 // c66a
+// c66b
+    }
+")).
+Eval vm_compute in ("<<<M176>>>" ++ check (runes_of_ascii "
+packet i8i8 { @tag( 0 ) int32
+leftPad `it's`
+, repeat char[]Header`crlf
+line`
+, @calculatedFrom( ""\" ++ [233]%N ++ runes_of_ascii """ )/// triple
+repeat
+    uint8 float , @rightPad
+('\x00' ) char[] zchar@lengthOf(
+// a // b
+//x
+leftPad )
+`
+` , Z9_ ,
+@lengthOf(
+x ) match As as
+    tag {	""a	b""  :
+string_ [
+10 , 7 , ""1"" , 255
+,
 3
-// packet A { u8 x, }
+    , 42 ,
+    //
+    0123456789, """ ++ [128512]%N ++ runes_of_ascii """ ] :x_y_z ,""CRC32""
+: Z9_  , 00
+    // c
+    : Logon
+    ,
+} , @tag(007) o {
+    char
+    Packet
+@lengthOf(
+    //	t
+    repeatCount
+) , } , @lengthOf(
+// " ++ [27880; 37322]%N ++ runes_of_ascii "
+/// triple
+pack
+) float64 rootA `two words`
+    ,	repeat char[] BodyLength ,}
+packet Z9_{ match
+    // packet A { u8 x, }
+    As
+as
+    a1{ //
+0: trueish // `tick` ""quote"" 'q'
+,} ,
+/// triple
+// " ++ [27880; 37322]%N ++ runes_of_ascii "
+} root packet u8x {
+/// triple
+// " ++ [128512]%N ++ runes_of_ascii " emoji
+repeat
+string Logon `tab	here` , // " ++ [128512]%N ++ runes_of_ascii " emoji
+}	options { _x
+=
+    ""packet""
+;f32a =007 } packet i8i8 {@calculatedFrom( ""CRC32"" )
+A @lengthOf(
+a1
+)
+, } 	 ")).
+Eval vm_compute in ("<<<M141>>>" ++ check (runes_of_ascii "options // @lengthOf(
+{zchar = char[] Z9_	='0' ;
+} options
+{ asx = char[] }root packet leftPad { T @lengthOf(
+    f32a//
+)
+, } //
+root
+//x
+// @lengthOf(
+packet calculatedFrom {
+u
+    {//	t
+char[] // packet A { u8 x, }
+T `" ++ [233]%N ++ runes_of_ascii "`	,	match stringy /// triple
+as //	t
+chars { [
+    0123456789 ]
+: T ,
+// `tick` ""quote"" 'q'
+// " ++ [27880; 37322]%N ++ runes_of_ascii "
+}	, uint16 a1 @lengthOf( x) , string
+chars `two words` ,
+} , @calculatedFrom(
+    ""x y"")char[]
+// " ++ [27880; 37322]%N ++ runes_of_ascii "
+// " ++ [128512]%N ++ runes_of_ascii " emoji
+body @lengthOf(
+lengthOf )
+    /// triple
+    ,
+    @lengthOf(	A	)rootA
+,	@lengthOf(i64_ ) // packet A { u8 x, }
+repeat f32a { lengthOf
+    // " ++ [128512]%N ++ runes_of_ascii " emoji
+    charz // a // b
+`" ++ [28040; 24687; 31867; 22411]%N ++ runes_of_ascii "`, }
+    // packet A { u8 x, }
+    ,
+match tag as
+//x
 //	t
-) @calculatedFrom(
-    ""\n"" ) repeat f64 roots// trailing space 
-`" ++ [233]%N ++ runes_of_ascii "`	, /// triple
-} 	 ")).
-Eval vm_compute in ("<<<M1553>>>" ++ check (runes_of_ascii "options {
+T { [
+3
+] : falsey , }	,zchar[
+    00
+    ] charz@lengthOf(
+    Pad
+) ,
+@tag( 3	) lengthOf{ i16 As ,
+} ,
+} root
+packet	body{ }
+")).
+Eval vm_compute in ("<<<M1358>>>" ++ check (runes_of_ascii "// top
+options // c0a
+  // c0b
+{ // c1a
+  // c1b
+LittleEndian = false ;
+    // c5
+StringPrefixLenType =
+    // c7
+u16 ; // c9
+} // c10
+packet
+    // c11
+Heartbeat { // c13
+@rightPad // c14
+( // c15a
+  // c15b
+'0' ) // c17a
+  // c17b
+char[ 7 // c19a
+  // c19b
+] seqNo // c21a
+  // c21b
+, // c22a
+  // c22b
+uint64 // c23a
+  // c23b
+Tail // c24a
+  // c24b
+, i16 // c26
+Flags // c27a
+  // c27b
+, u16
+    // c29
+msgKind // c30
+, // c31a
+  // c31b
+}
+    // c32
+root // c33a
+  // c33b
+packet // c34
+Reject
+    // c35
+{ // c36a
+  // c36b
+zchar[ 3 ] // c39a
+  // c39b
+tag7 // c40
+,
+    // c41
+repeat // c42
+Heartbeat // c43a
+  // c43b
+, // c44
+repeat // c45a
+  // c45b
+string
+    // c46
+clOrdID // c47a
+  // c47b
+, // c48
+} // c49
+")).
+Eval vm_compute in ("<<<M1770>>>" ++ check (runes_of_ascii "
+
+  root// c
+  packet 
+asx{ @rightPad(
+' ' )  @lengthOf( int )  @tag(
+
+0
+	) 
+u64
+
+uint8x 
+@calculatedFrom(
+
+    ""packet"" ),
+uint32
+
+i64_ ,
+// c
+	repeat options1 o, 
+match	f32a as/// triple
+	falsey // " ++ [27880; 37322]%N ++ runes_of_ascii "
+{ 
+42 : 
+stringy 10
+	:As  ,	""""
+:  Packet
+	,
+	}
+    , @calculatedFrom( ""it's"" ) 	 // " ++ [128512]%N ++ runes_of_ascii " emoji
+    f64
+a1
+	,@lengthOf( 
+tag
+	)  match 
+roots  as  MetaDataX {	""" ++ [128512]%N ++ runes_of_ascii """
+
+:
+    f32a
+    ,
+
+    ""\n""	:
+
+    As
+	[
+	255 ]
+
+:
+A
+
+    ,}
+	,a1
+
+@calculatedFrom(
+	""abc""
+)  ``,@rightPad	(	)@rightPad (
+
+    '\x00' ) @calculatedFrom(
+""CRC32""
+	)body 
+As  ,
+} root
+
+packet
+packetx {
+	    //x
+//
+repeat
+lengthOf 
+Logon  `" ++ [28040; 24687; 31867; 22411]%N ++ runes_of_ascii "`
+	,	//	t
+      } ")).
+Eval vm_compute in ("<<<M1114>>>" ++ check (runes_of_ascii "// top
+packet
+    // c0
+float
+    // c1
+{
+    // c2
+@rightPad
+    // c3
+(
+    // c4
+)
+    // c5
+rootA
+    // c6
+@lengthOf(
+    // c7
+trueish
+    // c8
+)
+    // c9
+,
+    // c10
+stringy
+    // c11
+@lengthOf(
+    // c12
+matchKey
+    // c13
+)
+    // c14
+,
+    // c15
+char[
+    // c16
+4294967296
+    // c17
+]
+    // c18
+pack
+    // c19
+@lengthOf(
+    // c20
+uint8x
+    // c21
+)
+    // c22
+,
+    // c23
+}
+    // c24
+root
+    // c25
+packet
+    // c26
+trueish
+    // c27
+{
+    // c28
+repeat
+    // c29
+uint64
+    // c30
+u128
+    // c31
+`line1
+line2`
+    // c32
+,
+    // c33
+}
+    // c34
+")).
+Eval vm_compute in ("<<<M1367>>>" ++ check (runes_of_ascii "options {
     StringPrefixLenType = u8;
     ArrayPrefixLenType = u8;
     FixedStringPadFromLeft = false;
     FixedStringPadChar = ' ';
 }
-
 packet Ack {
     char[] tag7,
 }
-
 packet Reject {
     InSym61 {
         repeat Ack,
         zchar[4] f1,
     },
 }
-
 packet Logout {
     char[4] clOrdID,
 }
-
 root packet Cancel {
-    @leftPad(' ')
-    char[10] price,
+    @leftPad(' ') char[10] price,
     u8 x,
     u32 venue @lengthOf(Body),
     match x as Body {
@@ -542,352 +644,231 @@ root packet Cancel {
         26 : Reject,
         144 : Ack,
     },
-    u16 count @calculatedFrom(""CRC32""),
-}")).
-Eval vm_compute in ("<<<M1235>>>" ++ check (runes_of_ascii "// top
-options
-    // c0
-{
-    // c1
-f32a
-    // c2
-=
-    // c3
-0
-    // c4
+    u16 count @calculatedFrom(""CR\
+C32""),
 }
-    // c5
-packet
-    // c6
-trueish
-    // c7
-{
-    // c8
-}
-    // c9
-MetaData
-    // c10
-_x
-    // c11
-{
-    // c12
-char[
-    // c13
-0123456789
-    // c14
-]
-    // c15
-zchar
-    // c16
-,
-    // c17
-string
-    // c18
-crc
-    // c19
-,
-    // c20
-char[
-    // c21
-1
-    // c22
-]
-    // c23
-options1
-    // c24
-,
-    // c25
-uint8
-    // c26
-repeatCount
-    // c27
-,
-    // c28
-}
-    // c29
 ")).
-Eval vm_compute in ("<<<M1140>>>" ++ check (runes_of_ascii "// top
-MetaData
-    // c0
-leftPad // c1
-{
-    // c2
-chars // c3a
-  // c3b
-MetaDataX // c4
-, // c5a
-  // c5b
-} packet // c7a
-  // c7b
-repeatCount // c8
-{ char[
-    // c10
-255 // c11a
-  // c11b
-] // c12a
-  // c12b
-uint8x
-    // c13
-`" ++ [233]%N ++ runes_of_ascii "` // c14a
-  // c14b
-,
-    // c15
-} // c16a
-  // c16b
-MetaData // c17a
-  // c17b
-pack // c18
-{ // c19a
-  // c19b
-As // c20a
-  // c20b
-Foo
-    // c21
-,
-    // c22
-} // c23a
-  // c23b
-")).
-Eval vm_compute in ("<<<M114>>>" ++ check (runes_of_ascii "packet
-a1 {@calculatedFrom(""`tick`"" ) uint32 charz	`crlf
-line` ,
-// c
-//x
-a1 `tab	here`, }
-    options
-    {
-// " ++ [27880; 37322]%N ++ runes_of_ascii "
-// " ++ [128512]%N ++ runes_of_ascii " emoji
-stringy =
-// c
-// a // b
-255 ;
-    metadata =	4294967296 pack
-    = /// triple
-string	; crc= string
-    ; }  root  packet
-crc	{ @tag(  42  )
-@calculatedFrom( ""abc""  )
-@rightPad ( '0'
-) u128 u8x
-/// triple
-//x
-,@lengthOf(len) uint16 int, }
-")).
-Eval vm_compute in ("<<<M127>>>" ++ check (runes_of_ascii "packet a1{ @leftPad ( ) float
-@lengthOf(
-uint8x ) , }
-packet Logon {
-char Logon
-@calculatedFrom( ""a\\"" )
-    ,T stringy ,
-//
-// c
-repeat uint8 stringy `two words` , } MetaData charz{ u
-    tag
-    `
-`
-, a1 falsey ,//x
-Z9_
-matchKey , f64 lengthOf	`a\` // @lengthOf(
-,
-    f32a roots
-    ``
-,float64
-    x_y_z // @lengthOf(
-, }
-")).
-Eval vm_compute in ("<<<M1799>>>" ++ check (runes_of_ascii "  options{ LittleEndian
-	=
-    true;	} packet
-
-Logon
-    {	u8 x 
-,
-
-    }
-
-packet
-
-Logout {
-
-u16
-reason,  }root  packet
-Frame
-
-    {
-    i8
-	Kind
-,i8 
-Kind2
-, match
-Kind
-as  Body{  1
-	: 
-Logon ,[2 ,
-3 ,4 
-] :
-Logout
-,	100: Logon	,
-
-}
-    ,
-	match
-Kind2 as Trailer{ 0
-:
-Logout
-
-,
-
-    }
-, }")).
-Eval vm_compute in ("<<<M222>>>" ++ check (runes_of_ascii "packet
-body// @lengthOf(
-{ @lengthOf(
-T
-    // " ++ [27880; 37322]%N ++ runes_of_ascii "
-    ) @lengthOf(
-int ) @leftPad ( '\x00')
-asx//x
-len
-,
-repeat	zchar[ 3] int `" ++ [28040; 24687; 31867; 22411]%N ++ runes_of_ascii "` ,@lengthOf(
-    // @lengthOf(
-    options1)match
-    x
-    as //x
-leftPad // @lengthOf(
-{
-7
-:
-x_y_z , 65535:  u128 , 42 : x ,} , //
-}")).
-Eval vm_compute in ("<<<M1306>>>" ++ check (runes_of_ascii "// top
-packet // c0a
-  // c0b
-orderItem // c1a
-  // c1b
-{ u8 // c3
-a // c4
-, // c5a
-  // c5b
-}
-    // c6
-root packet // c8a
-  // c8b
-newOrder // c9a
-  // c9b
-{ orderItem // c11
-, u8
-    // c13
-x // c14a
-  // c14b
-,
-    // c15
-} // c16
-")).
-Eval vm_compute in ("<<<M1436>>>" ++ check (runes_of_ascii "
-packet
-    A
-{
-u8
-a  ,
-
-    } packet	B
-
-    { u16 b
-, }root  packet 
-P
-{  u8
-    K1 ,
-	u8
-
-K2 
-,match
-
-    K1
-    as M1
-
-{
-    1
-
-:
-
-A 
-,
+Eval vm_compute in ("<<<M340>>>" ++ check (runes_of_ascii "packet leftPad//
+{@rightPad () repeat chars	{crc /// triple
+pack  ,
 } ,
-match
-K2 as
-M2 {
-
-    1
-:B, 
-}
-
-,
-
-    }
-")).
-Eval vm_compute in ("<<<M1405>>>" ++ check (runes_of_ascii "
-MetaData
-	stringy { zchar[ 10	] crc,}	packet
-
-u128
-    {
-repeat	uint16	BodyLength
-`// not a comment`
-
-    , @lengthOf(	falsey  )  _x
-	,
-
-    char[
-	42
-] i8i8,
-
-    }
-")).
-Eval vm_compute in ("<<<M1535>>>" ++ check (runes_of_ascii "  MetaData
-	leftPad
-
-{
-chars 	 // c
-	MetaDataX
-    ,  }
-	packet
-repeatCount
-
-    { 
-char[
-255
-]
-
-    uint8x
-`" ++ [233]%N ++ runes_of_ascii "`
-    ,}
-
-    MetaData
-	pack
-{As  Foo , }
-")).
-Eval vm_compute in ("<<<M1714>>>" ++ check (runes_of_ascii "MetaData	repeatCount // c
-	{
-    char[
-
-    42 // " ++ [27880; 37322]%N ++ runes_of_ascii "
-
-	]
-	    // " ++ [128512]%N ++ runes_of_ascii " emoji
-	  MetaDataX, 
-    // @lengthOf(
-  zchar[
-
-// " ++ [27880; 37322]%N ++ runes_of_ascii "
+@calculatedFrom( """ ++ [28040; 24687]%N ++ runes_of_ascii """ )@lengthOf(options1  )@tag( 65535 ) Foo,match
+matchKey
+    as // " ++ [128512]%N ++ runes_of_ascii " emoji
+tag	{
+    // c
+    [ ""{,}"",
+""""
+, ""`tick`"" ,
+3 ,""it's"",  """ ++ [128512]%N ++ runes_of_ascii """	,
+""it's""] :As
+    , [
+/// triple
+//	t
+""x y""]
     //x
-  0
-	] 
-asx
-	, 
-} ")).
+    :
+chars,""" ++ [233]%N ++ runes_of_ascii "t" ++ [233]%N ++ runes_of_ascii """	:uint8x,4294967296:	packetx
+""// no comment""
+:
+calculatedFrom , }
+,  @calculatedFrom( ""// no comment""// @lengthOf(
+)
+char[// trailing space 
+007 ]	f32a ,} // a // b")).
+Eval vm_compute in ("<<<M1444>>>" ++ check (runes_of_ascii "  options// " ++ [27880; 37322]%N ++ runes_of_ascii "
+
+  {
+
+T
+    =zchar[ 42 ]
+options1
+    = 
+uint8 ;
+lengthOf
+
+= 
+// a // b
+		char[ 4294967296 ]; } packet Z9_
+	{
+repeat MetaDataX
+	`crlf
+line`
+
+, 
+repeat string 
+x_y_z,  u32
+    x	,// `tick` ""quote"" 'q'
+
+  @tag(
+	// " ++ [128512]%N ++ runes_of_ascii " emoji
+	// " ++ [128512]%N ++ runes_of_ascii " emoji
+
+	00
+    ) repeat
+    i64  Logon	,  u8x
+f32a ,repeat	lengthOf 
+``,
+repeat stringy
+
+Pad
+        // @lengthOf(
+    `
+`	,  repeat
+string_
+    chars `// not a comment` , }
+")).
+Eval vm_compute in ("<<<M1792>>>" ++ check (runes_of_ascii "// top
+MetaData Packet {
+    // c2
+}// c3
+
+packet charz {
+    // c6
+    Foo asx `it's`,// c10
+    @lengthOf(T)
+    // c13
+    @calculatedFrom("""")
+    // c16
+    @calculatedFrom(""x y"")
+    // c19
+    zchar[007] repeatCount @lengthOf(int) `a\`,// c28
+    i8 string_,// c31
+    repeat options1 Pad,// c35
+}// c36
+
+root packet Packet {
+    // c40
+    int8 float `doc`,// c44
+}// c45")).
+Eval vm_compute in ("<<<M110>>>" ++ check (runes_of_ascii "root // trailing space 
+packet
+leftPad { T
+@lengthOf(A
+) `" ++ [233]%N ++ runes_of_ascii "`,
+    Header
+    @lengthOf( As ) // " ++ [27880; 37322]%N ++ runes_of_ascii "
+,
+string	calculatedFrom `{ , }`
+, @tag( 1) // trailing space 
+u16  x_y_z ,
+@tag( 4294967296
+) x_y_z metadata// " ++ [128512]%N ++ runes_of_ascii " emoji
+,asx { asx `it's`
+    ,} , char[ 65535 ]
+As@lengthOf(
+    Logon ) `a\`
+,@lengthOf(
+Z9_
+    ) string
+BodyLength ,
+}")).
+Eval vm_compute in ("<<<M81>>>" ++ check (runes_of_ascii "root packet o {
+} MetaData uint8x
+    { int64 rootA  ,}
+    MetaData
+As{i32 // packet A { u8 x, }
+chars,	}packet Z9_// trailing space 
+{
+@leftPad( )char[]	x_y_z,} packet tag {	@leftPad(
+// " ++ [128512]%N ++ runes_of_ascii " emoji
+// " ++ [27880; 37322]%N ++ runes_of_ascii "
+' '
+    )
+zchar[ 0 // `tick` ""quote"" 'q'
+] rootA @calculatedFrom(
+    ""a\\"" )
+    `tab	here`
+,}")).
+Eval vm_compute in ("<<<M1357>>>" ++ check (runes_of_ascii "options {
+    LittleEndian = false;
+    StringPrefixLenType = u16;
+}
+packet Heartbeat {
+    @rightPad('0') char[7] seqNo,
+    uint64 Tail,
+    i16 Flags,
+    u16 msgKind,
+}
+root packet Reject {
+    zchar[3] tag7,
+    repeat Heartbeat,
+    repeat string clOrdID,
+}
+")).
+Eval vm_compute in ("<<<M1711>>>" ++ check (runes_of_ascii "
+packet	lengthOf
+{ 
+}
+root packet	leftPad
+{	zchar[ 00 	 // a // b
+  ] Foo`` 	 // c
+  ,
+    @calculatedFrom( ""1""  ) 
+@leftPad
+(
+
+' ' 
+	    // trailing space 
+  	// " ++ [27880; 37322]%N ++ runes_of_ascii "
+	  )  @leftPad( ' '
+)
+
+    repeat
+u8  options1
+    , }
+
+")).
+Eval vm_compute in ("<<<M318>>>" ++ check (runes_of_ascii "options {Z9_ =// trailing space 
+""packet"" ;float = false
+; A =
+' ' }
+    // c
+    MetaData pack
+{ zchar[
+3] leftPad
+,zchar
+    falsey `it's` , char[] repeatCount ,char[ 65535 // " ++ [128512]%N ++ runes_of_ascii " emoji
+] Z9_, }
+//	t
+")).
+Eval vm_compute in ("<<<M1499>>>" ++ check (runes_of_ascii "packet A {
+    match k as n {
+        [
+            ""a"", ""bb"", ""c c"", ""d"", ""e"",
+            ""f"", ""g"", ""h"", ""i"", ""j"",
+            ""k"", ""l""
+        ] : B,
+        2 : C,
+    },
+}")).
+Eval vm_compute in ("<<<M73>>>" ++ check (runes_of_ascii "root
+    packet As { //
+char	charz @lengthOf( packetx
+) `{ , }`,//
+char[0123456789
+]
+MetaDataX
+// " ++ [27880; 37322]%N ++ runes_of_ascii "
+// `tick` ""quote"" 'q'
+`it's` , zchar[
+    7]o `u8 x,`
+, }")).
+Eval vm_compute in ("<<<M55>>>" ++ check (runes_of_ascii "MetaData x_y_z
+//x
+//x
+{ int32
+    o
+,zchar[
+65535  ]Packet , i64_ o , i64 o`
+` , } options
+{ x =
+//x
+/// triple
+u8;
+// " ++ [27880; 37322]%N ++ runes_of_ascii "
+// a // b
+} // trailing space ")).
 Eval vm_compute in ("<<<M496>>>" ++ check (runes_of_ascii "packet uint8x
 { match pack
     as msg_type	{
@@ -899,9 +880,9 @@ a1
     { } options {packetx
     = = '\x00'	; u128= ""a	b""  ; }
 ")).
-Eval vm_compute in ("<<<M412>>>" ++ check (runes_of_ascii "packet uint8x
-{ match as
-    pack msg_type	{
+Eval vm_compute in ("<<<M417>>>" ++ check (runes_of_ascii "packet uint8x
+{ match pack
+    msg_type as	{
     0123456789 :	float
 }
 ,
@@ -910,9 +891,9 @@ a1
     { } options {packetx
     = '\x00'	; u128= ""a	b""  ; }
 ")).
-Eval vm_compute in ("<<<M400>>>" ++ check (runes_of_ascii "packet uint8x
- match pack
-    as msg_type	{
+Eval vm_compute in ("<<<M425>>>" ++ check (runes_of_ascii "packet uint8x
+{ match pack
+    as msg_type	
     0123456789 :	float
 }
 ,
@@ -921,19 +902,42 @@ a1
     { } options {packetx
     = '\x00'	; u128= ""a	b""  ; }
 ")).
-Eval vm_compute in ("<<<M1542>>>" ++ check (runes_of_ascii "options {
-    f32a = ""a\""b"";
-    Z9_ = ""`tick`""
-    Logon = ""CRC32""
-    u128 = f64;
-    rootA = false;
-}//	t
+Eval vm_compute in ("<<<M1789>>>" ++ check (runes_of_ascii "
 
-packet lengthOf {
+  packet 
+A {  match
+k
+	as n{
+	[ ""a""
+
+, 22
+
+,
+""c c""  ,
+	4
+,
+""e""  ,
+	66
+,
+
+""g""	,
+8
+	,
+	""i""
+	,
+10,
+
+    ""k""
+	,
+12
+]
+    :B
+	, 2
+
+: C },
+
 }
-
-MetaData len {
-}")).
+")).
 Eval vm_compute in ("<<<M551>>>" ++ check (runes_of_ascii "packet uint8x
 { match pack
     as " ++ [21517; 23383]%N ++ runes_of_ascii "	{
@@ -945,14 +949,14 @@ a1
     { } options {packetx
     = '\x00'	; u128= ""a	b""  ; }
 ")).
-Eval vm_compute in ("<<<M137>>>" ++ check (runes_of_ascii "
-packet u128//x
-{ @calculatedFrom(  ""x y""
-    ) // `tick` ""quote"" 'q'
-@rightPad (  ' ') char[ 42 ]  Header
-    @calculatedFrom( ""abc"" ),  }
-
-")).
+Eval vm_compute in ("<<<M663>>>" ++ check (runes_of_ascii "// @lengthOf(
+packet i8i8 { u128 o , }
+options { MetaDataX = true;
+    BodyLength =""packet"" x_y_z= 007
+crc //x
+= ""abc"" ;
+    msg_type =
+i16 ")).
 Eval vm_compute in ("<<<M686>>>" ++ check (runes_of_ascii "// @lengthOf(
 packet i8i8 { u128 o , }
 options { f64 = true;
@@ -961,139 +965,112 @@ crc //x
 = ""abc"" ;
     msg_type =
 i16 }")).
-Eval vm_compute in ("<<<M304>>>" ++ check (runes_of_ascii "packet
-    // " ++ [27880; 37322]%N ++ runes_of_ascii "
-    Logon {
-repeatCount @lengthOf( roots ) , @tag(0) repeat zchar[007] crc , rootA a1 `{ , }` , string_ `" ++ [233]%N ++ runes_of_ascii "`
-,  }
+Eval vm_compute in ("<<<M514>>>" ++ check (runes_of_ascii "packet uint8x
+{ match pack
+    as msg_type	{
+    0123456789 :	float
+}
+,
+} packet //	t
+a1
+    { } options {packetx
+    = '\x00'	;")).
+Eval vm_compute in ("<<<M504>>>" ++ check (runes_of_ascii "packet uint8x
+{ match pack
+    as msg_type	{
+    0123456789 :	float
+}
+,
+} packet //	t
+a1
+    { } options {packetx
+    =")).
+Eval vm_compute in ("<<<M1150>>>" ++ check (runes_of_ascii "MetaData leftPad { chars
+// c
+MetaDataX , } packet repeatCount { char[ 255 ] uint8x `" ++ [233]%N ++ runes_of_ascii "` , } MetaData pack { As Foo , }")).
+Eval vm_compute in ("<<<M1182>>>" ++ check (runes_of_ascii "MetaData leftPad { chars MetaDataX , } packet repeatCount { char[ 255 ] uint8x `" ++ [233]%N ++ runes_of_ascii "` , } MetaData pack {
+// c
+As Foo , }")).
+Eval vm_compute in ("<<<M136>>>" ++ check (runes_of_ascii "// a // b
+options { // " ++ [128512]%N ++ runes_of_ascii " emoji
+calculatedFrom=
+'\x00'	; BodyLength = true ;asx // packet A { u8 x, }
+= true }")).
+Eval vm_compute in ("<<<M955>>>" ++ check (runes_of_ascii "packet A {
+    u16 len @lengthOf(body) `
+x`,
+    u32 crc @calculatedFrom(""CRC32"") `
+x`,
+    string body,
+}")).
+Eval vm_compute in ("<<<M1317>>>" ++ check (runes_of_ascii "packet FooBar {
+    u8 a,
+}
+packet foo_bar {
+    u16 b,
+}
+root packet R {
+    FooBar,
+    foo_bar,
+}
 ")).
-Eval vm_compute in ("<<<M1258>>>" ++ check (runes_of_ascii "packet B {
+Eval vm_compute in ("<<<M258>>>" ++ check (runes_of_ascii "packet
+    metadata{ u32 // `tick` ""quote"" 'q'
+Packet `say ""hi""`
+,
+    // trailing space 
+    }")).
+Eval vm_compute in ("<<<M863>>>" ++ check (runes_of_ascii "packet A {
+  match k as n {
+    [""a"", ""bb"", 007, ""d"", ""e"", 66, ""g"", ""h""] : B
+    2 : C
+  },
+}")).
+Eval vm_compute in ("<<<M229>>>" ++ check (runes_of_ascii "// a // b
+options{
+Foo
+= '\x00'
+    pack
+= zchar[ 65535]
+// " ++ [128512]%N ++ runes_of_ascii " emoji
+//x
+;	int = ""\n"" ;	}
+")).
+Eval vm_compute in ("<<<M856>>>" ++ check (runes_of_ascii "packet A {
+  match k as n {
+    [1, ""bb"", 007, ""d"", 5, ""f"", 7, ""h""] : B,
+    2 : C
+  },
+}")).
+Eval vm_compute in ("<<<M829>>>" ++ check (runes_of_ascii "packet A {
+  match k as n {
+    [""a"", ""bb"", ""c c"", ""d"", ""e"", ""f""] : B
+    2 : C
+  },
+}")).
+Eval vm_compute in ("<<<M966>>>" ++ check (runes_of_ascii "packet A {
+    u32 crc @calculatedFrom(""x\
+y""),
+    @calculatedFrom(""x\
+y"") u8 y,
+}")).
+Eval vm_compute in ("<<<M1252>>>" ++ check (runes_of_ascii "packet Inner {
     u8 a,
 }
 root packet P {
-    u8 K,
-    u8 L @lengthOf(Body),
-    match K as Body {
-        1 : B,
-    },
+    repeat Inner items,
+    u8 x,
 }
 ")).
-Eval vm_compute in ("<<<M1162>>>" ++ check (runes_of_ascii "MetaData leftPad { chars MetaDataX , } packet repeatCount {
-// c
-char[ 255 ] uint8x `" ++ [233]%N ++ runes_of_ascii "` , } MetaData pack { As Foo , }")).
-Eval vm_compute in ("<<<M938>>>" ++ check (runes_of_ascii "packet A {
-    Inner {
-        u8 x `a
-    b
-  c`,
-        Deep {
-            u8 y `a
-    b
-  c`,
-        },
-    },
-}")).
-Eval vm_compute in ("<<<M943>>>" ++ check (runes_of_ascii "packet A {
-    u16 len @lengthOf(body) `a
-
-b`,
-    u32 crc @calculatedFrom(""CRC32"") `a
-
-b`,
-    string body,
-}")).
-Eval vm_compute in ("<<<M1621>>>" ++ check (runes_of_ascii "options  { LittleEndian
-
-=	true
-	;
-} 
-root
-
-    packet
-
-P
-
-{
-    repeat
-char
-	cs  ,  u8
-
-    x
-, } ")).
-Eval vm_compute in ("<<<M1719>>>" ++ check (runes_of_ascii "
-root	packet
-	SimpleMessage
-
-    {
-
-uint16  MsgType `" ++ [28040; 24687; 31867; 22411]%N ++ runes_of_ascii "`, string
-
-JsonBody
-	`Json" ++ [23383; 31526; 20018; 28040; 24687; 20307]%N ++ runes_of_ascii "`,
-    }
+Eval vm_compute in ("<<<M345>>>" ++ check (runes_of_ascii "
+options
+{ } // " ++ [128512]%N ++ runes_of_ascii " emoji
+options { float // `tick` ""quote"" 'q'
+=	65535 }
 ")).
-Eval vm_compute in ("<<<M905>>>" ++ check (runes_of_ascii "packet A {
-  match k as n {
-    [1, 22, 007, 4, 5, 66, 7, 8, 9, 10, 11, 12] : B
-    2 : C
-  },
-}")).
-Eval vm_compute in ("<<<M635>>>" ++ check (runes_of_ascii "
-packet
-    asx {'1'match u128 as lengthOf
-{
-//	t
-// `tick` ""quote"" 'q'
-255 : x ,
-    } ,	}")).
-Eval vm_compute in ("<<<M637>>>" ++ check (runes_of_ascii "
-~packet
-    asx {match u128 as lengthOf
-{
-//	t
-// `tick` ""quote"" 'q'
-255 : x ,
-    } ,	}")).
-Eval vm_compute in ("<<<M587>>>" ++ check (runes_of_ascii "
-packet
-    asx {match u128 as lengthOf
-
-//	t
-// `tick` ""quote"" 'q'
-255 : x ,
-    } ,	}")).
-Eval vm_compute in ("<<<M572>>>" ++ check (runes_of_ascii "
-packet
-    asx {match  as lengthOf
-{
-//	t
-// `tick` ""quote"" 'q'
-255 : x ,
-    } ,	}")).
-Eval vm_compute in ("<<<M832>>>" ++ check (runes_of_ascii "packet A {
-  match k as n {
-    [""a"", 22, ""c c"", 4, ""e"", 66] : B,
-    2 : C
-  },
-}")).
-Eval vm_compute in ("<<<M819>>>" ++ check (runes_of_ascii "packet A {
-  match k as n {
-    [""a"", 22, ""c c"", 4, ""e""] : B,
-    2 : C
-  },
-}")).
-Eval vm_compute in ("<<<M811>>>" ++ check (runes_of_ascii "packet A {
-  match k as n {
-    [""a"", ""bb"", 007, ""d""] : B
-    2 : C
-  },
-}")).
-Eval vm_compute in ("<<<M808>>>" ++ check (runes_of_ascii "packet A {
-  match k as n {
-    [1, 22, ""c c"", 4] : B,
-    2 : C
-  },
-}")).
+Eval vm_compute in ("<<<M42>>>" ++ check (runes_of_ascii "
+packet roots
+    { len leftPad `// not a comment`	,} packet packetx{}")).
 Eval vm_compute in ("<<<M942>>>" ++ check (runes_of_ascii "packet A {
     B b `a
 
@@ -1105,63 +1082,67 @@ b`,
 
 b`,
 }")).
-Eval vm_compute in ("<<<M1126>>>" ++ check (runes_of_ascii "// top
-MetaData
-    // c0
-u
-    // c1
-{
-    // c2
-}
-    // c3
-")).
-Eval vm_compute in ("<<<M1929>>>" ++ check (runes_of_ascii "
-// top
-
-	packet  // c0
-	x	// c1
-    {  // c2
-	}  // c3
-")).
-Eval vm_compute in ("<<<M159>>>" ++ check (runes_of_ascii "root packet x  { roots @calculatedFrom(""a\""b"" ) , }")).
-Eval vm_compute in ("<<<M375>>>" ++ check (runes_of_ascii "options {Foo = '0'	;	Pad = '0';	crc ='0' ; //	t
-}")).
-Eval vm_compute in ("<<<M957>>>" ++ check (runes_of_ascii "MetaData M {
-    u8 x `
-x`,
-    T t `
-x`,
-}")).
-Eval vm_compute in ("<<<M1541>>>" ++ check (runes_of_ascii "root packet P {
-    char c,
-    u8 x,
-}")).
-Eval vm_compute in ("<<<M946>>>" ++ check (runes_of_ascii "root packet A {
+Eval vm_compute in ("<<<M204>>>" ++ check (runes_of_ascii "  options {// " ++ [128512]%N ++ runes_of_ascii " emoji
+Packet =// `tick` ""quote"" 'q'
+char[3 ]}")).
+Eval vm_compute in ("<<<M799>>>" ++ check (runes_of_ascii "packet A { Inner { match k as n { [1,22,007] : B, }, }, }")).
+Eval vm_compute in ("<<<M1513>>>" ++ check (runes_of_ascii "packet A {
     u8 x `a
-
-b`,
+            b
+          c`,
 }")).
-Eval vm_compute in ("<<<M586>>>" ++ check (runes_of_ascii "
+Eval vm_compute in ("<<<M1469>>>" ++ check (runes_of_ascii "
 packet
-    asx {match u128 as")).
-Eval vm_compute in ("<<<M1840>>>" ++ check (runes_of_ascii "// top
-MetaData tag {
-}// c3")).
-Eval vm_compute in ("<<<M1634>>>" ++ check (runes_of_ascii "  packet
-	A{ } 
 
-// c" ++ [12288]%N ++ runes_of_ascii "
+    A { u8
+    x `d" ++ [8239]%N ++ runes_of_ascii "`
+, 	 // c" ++ [8239]%N ++ runes_of_ascii "
+    }
+
 ")).
-Eval vm_compute in ("<<<M1787>>>" ++ check (runes_of_ascii "
-// only a comment
+Eval vm_compute in ("<<<M434>>>" ++ check (runes_of_ascii "packet uint8x
+{ match pack
+    as msg_type	{")).
+Eval vm_compute in ("<<<M1767>>>" ++ check (runes_of_ascii "packet MetaDataX {
+    i16 u128 `" ++ [233]%N ++ runes_of_ascii "`,//x
+}")).
+Eval vm_compute in ("<<<M200>>>" ++ check (runes_of_ascii "options {
+options1 =
+    ' ' ;
+}
+
+")).
+Eval vm_compute in ("<<<M1953>>>" ++ check (runes_of_ascii "
+
+  packet
+A
+
+{
+} 
+
+    // c" ++ [8202]%N ++ runes_of_ascii "
  
 ")).
-Eval vm_compute in ("<<<M744>>>" ++ check (runes_of_ascii "`" ++ [28040; 24687; 31867; 22411]%N ++ runes_of_ascii "` '0' options")).
-Eval vm_compute in ("<<<M1056>>>" ++ check (runes_of_ascii "packet A {
+Eval vm_compute in ("<<<M1416>>>" ++ check (runes_of_ascii "// c" ++ [65279]%N ++ runes_of_ascii "
+		packet A
+    {
+    }
+")).
+Eval vm_compute in ("<<<M217>>>" ++ check (runes_of_ascii "root	packet falsey
+{
 }
-// c" ++ [6158]%N)).
-Eval vm_compute in ("<<<M1224>>>" ++ check (runes_of_ascii "// c
-packet x { }")).
-Eval vm_compute in ("<<<M740>>>" ++ check (runes_of_ascii ", = , ; int16")).
-Eval vm_compute in ("<<<M1000>>>" ++ check (runes_of_ascii "// c" ++ [8192]%N)).
-Eval vm_compute in ("<<<M727>>>" ++ check (runes_of_ascii "")).
+")).
+Eval vm_compute in ("<<<M295>>>" ++ check (runes_of_ascii "root  packet
+u128 { }")).
+Eval vm_compute in ("<<<M1042>>>" ++ check (runes_of_ascii "// c 	
+packet A {
+}")).
+Eval vm_compute in ("<<<M1011>>>" ++ check (runes_of_ascii "packet A {
+}
+// c" ++ [8232]%N)).
+Eval vm_compute in ("<<<M979>>>" ++ check (runes_of_ascii "packet A {
+}// c" ++ [12288]%N)).
+Eval vm_compute in ("<<<M1575>>>" ++ check (runes_of_ascii "MetaData tag {
+}")).
+Eval vm_compute in ("<<<M750>>>" ++ check (runes_of_ascii "uk%W,3^r>l")).
+Eval vm_compute in ("<<<M1496>>>" ++ check (runes_of_ascii "// " ++ [27880; 37322]%N)).
